@@ -370,6 +370,16 @@ func projectStore(hs []*ucfg.Config, addrs map[string]addr, comps map[string]boo
 		if comps["path"] {
 			hp.Path = c.Path(".")
 			hp.IsRoot = c.Parent() == nil
+			// PathOf(name) is the path a setting of that name has (or would have) in this sub-config: Path() + name
+			for _, k := range append(c.GetFields(), "zq") {
+				want := k
+				if hp.Path != "" {
+					want = hp.Path + "." + k
+				}
+				if got := c.PathOf(k, "."); got != want {
+					hp.Path += " !PathOf(" + k + ")=" + got
+				}
+			}
 		}
 		if comps["kind"] {
 			hp.IsDict, hp.IsArr = c.IsDict(), c.IsArray()
@@ -422,6 +432,13 @@ func projectStore(hs []*ucfg.Config, addrs map[string]addr, comps map[string]boo
 					n = -1
 				}
 				hp.Count[k] = n
+				// HasField agrees with GetFields
+				if !c.HasField(k) {
+					hp.Count["!HasField("+k+")"] = -2
+				}
+			}
+			if c.HasField("zq") {
+				hp.Count["!HasField(zq)"] = -3
 			}
 		}
 		sp.H = append(sp.H, hp)
